@@ -341,6 +341,9 @@ class ApiGen:
             elif r < 0.06 and self.chans:
                 ch = rng.choice(self.chans)
                 if not self.dead:
+                    if rng.random() < 0.2:
+                        # a stale reply is waiting where CloseOk is expected: the close fails
+                        self.ok_reply(ch, "queue.purge-ok")
                     self.rep_frame(ch, amqp.channel_close_ok(ch), [])
                 self.op("%s %d" % (rng.choice(["close-chan", "drop-chan"]), ch))
                 self.chans.remove(ch)
